@@ -76,6 +76,9 @@ class ExprMixin(object):
             return self.merge_glists(c, a, b)
         if isinstance(a, PyObj) and isinstance(b, PyObj) and a.o is b.o:
             return a
+        if isinstance(a, PyObj) and isinstance(b, PyObj) and inspect.isclass(a.o) and inspect.isclass(b.o):
+            # a class chosen by a condition (klass = A if c else B): calling it branches on the condition
+            return PyObj(('classchoice', c, a, b))
         if isinstance(a, Bound) and isinstance(b, Bound) and a.func is b.func:
             return Bound(self.merge_values(c, a.selfv, b.selfv), a.func, a.name)
         raise EngineError('unmergeable values %r / %r' % (a, b))
@@ -748,7 +751,9 @@ class ExprMixin(object):
         if kind == 'property':
             if a.fget is None:
                 raise EngineError('write-only property')
-            return self.call_function(st, a.fget, [base], {}, inline=True)
+            from .calls import qualname as _qn
+            has_contract = isinstance(a.fget, types.FunctionType) and self.registry.get(_qn(a.fget)) is not None
+            return self.call_function(st, a.fget, [base], {}, inline=not has_contract, line=line)
         if kind == 'method':
             return Bound(base, a, name)
         if kind == 'classmethod':
